@@ -118,48 +118,54 @@ func genLedgerQuery(repo string) (string, error) {
 		}
 		return true
 	})
+	var l string
 	if loop == nil {
-		return "", fmt.Errorf("setHeaderIndex: eviction loop (a `for` guarded by an `if`, whose condition mentions HEADER_INDEX_MAX_SIZE) not found")
-	}
-	lc := stripParens(loop.Cond).(*ast.BinaryExpr)
-	var counter *ast.Ident
-	switch {
-	case lc.Op == token.GTR && flat(fset, lc.Y) == "HEADER_INDEX_MAX_SIZE":
-		counter, _ = lc.X.(*ast.Ident)
-	case lc.Op == token.LSS && flat(fset, lc.X) == "HEADER_INDEX_MAX_SIZE":
-		counter, _ = lc.Y.(*ast.Ident)
-	}
-	if counter == nil {
-		return "", fmt.Errorf("setHeaderIndex: loop condition is not `<counter> > HEADER_INDEX_MAX_SIZE`: %s", flat(fset, lc))
-	}
-	var counterDef ast.Expr
-	nDef := 0
-	ast.Inspect(fn.Body, func(n ast.Node) bool {
-		if as, ok := n.(*ast.AssignStmt); ok && as.Tok == token.DEFINE && len(as.Lhs) == 1 && len(as.Rhs) == 1 {
-			if id, ok := as.Lhs[0].(*ast.Ident); ok && id.Name == counter.Name {
-				counterDef = as.Rhs[0]
-				nDef++
-			}
+		// second shape: the eviction written in closed form — guard-returns, a computed end, an index loop, one final store
+		l, err = closedFormEviction(fset, fn, norm, atoms, recv)
+		if err != nil {
+			return "", err
 		}
-		return true
-	})
-	if nDef != 1 {
-		return "", fmt.Errorf("setHeaderIndex: expected exactly one definition of the loop counter %s, found %d", counter.Name, nDef)
-	}
-	l, err := intExprToLean(fset, norm(counterDef), atomsFlat(fset, atoms))
-	if err != nil {
-		return "", fmt.Errorf("setHeaderIndex: %v", err)
+	} else {
+		lc := stripParens(loop.Cond).(*ast.BinaryExpr)
+		var counter *ast.Ident
+		switch {
+		case lc.Op == token.GTR && flat(fset, lc.Y) == "HEADER_INDEX_MAX_SIZE":
+			counter, _ = lc.X.(*ast.Ident)
+		case lc.Op == token.LSS && flat(fset, lc.X) == "HEADER_INDEX_MAX_SIZE":
+			counter, _ = lc.Y.(*ast.Ident)
+		}
+		if counter == nil {
+			return "", fmt.Errorf("setHeaderIndex: loop condition is not `<counter> > HEADER_INDEX_MAX_SIZE`: %s", flat(fset, lc))
+		}
+		var counterDef ast.Expr
+		nDef := 0
+		ast.Inspect(fn.Body, func(n ast.Node) bool {
+			if as, ok := n.(*ast.AssignStmt); ok && as.Tok == token.DEFINE && len(as.Lhs) == 1 && len(as.Rhs) == 1 {
+				if id, ok := as.Lhs[0].(*ast.Ident); ok && id.Name == counter.Name {
+					counterDef = as.Rhs[0]
+					nDef++
+				}
+			}
+			return true
+		})
+		if nDef != 1 {
+			return "", fmt.Errorf("setHeaderIndex: expected exactly one definition of the loop counter %s, found %d", counter.Name, nDef)
+		}
+		l, err = intExprToLean(fset, deparen(norm(counterDef)), atomsFlat(fset, atoms))
+		if err != nil {
+			return "", fmt.Errorf("setHeaderIndex: %v", err)
+		}
+		gc, ok := stripParens(norm(guardIf.Cond)).(*ast.BinaryExpr)
+		gOK := false
+		if ok {
+			x, y := atomOf(fset, gc.X, atoms), atomOf(fset, gc.Y, atoms)
+			gOK = (gc.Op == token.LSS && x == "firstIndex" && y == "curBlockHeight") || (gc.Op == token.GTR && x == "curBlockHeight" && y == "firstIndex")
+		}
+		if !gOK {
+			return "", fmt.Errorf("setHeaderIndex: the guard of the eviction loop is not `firstIndex < curBlockHeight`: %s", flat(fset, guardIf.Cond))
+		}
 	}
 	fmt.Fprintf(&sb, "/-- setHeaderIndex: the eviction counter starts at `curBlockHeight - firstIndex + 1` (uint32; guarded by the comparison below, so the\nsubtraction does not wrap) -/\ndef cacheSize (curBlockHeight firstIndex : Nat) : Nat := %s\n\n", l)
-	gc, ok := stripParens(norm(guardIf.Cond)).(*ast.BinaryExpr)
-	gOK := false
-	if ok {
-		x, y := atomOf(fset, gc.X, atoms), atomOf(fset, gc.Y, atoms)
-		gOK = (gc.Op == token.LSS && x == "firstIndex" && y == "curBlockHeight") || (gc.Op == token.GTR && x == "curBlockHeight" && y == "firstIndex")
-	}
-	if !gOK {
-		return "", fmt.Errorf("setHeaderIndex: the guard of the eviction loop is not `firstIndex < curBlockHeight`: %s", flat(fset, guardIf.Cond))
-	}
 	// the index write itself: exactly one assignment `recv.headerIndex[<header height>] = <hash>`, as the unguarded first statement of the body
 	// (an entry left by header sync must be overwritten when the block of that height is committed)
 	top, nested := 0, 0
@@ -247,14 +253,14 @@ func genLedgerQuery(repo string) (string, error) {
 	atoms2 := map[string]string{recv2 + ".GetCurrentBlockHeight()": "currBlockHeight", recv2 + ".currBlockHeight": "currBlockHeight", "HEADER_INDEX_MAX_SIZE": "headerIndexMaxSize"}
 	cl, err := intExprToLean(fset2, func() ast.Expr {
 		if be, ok := norm2(condIf.Cond).(*ast.BinaryExpr); ok && be.Op == token.GTR {
-			return &ast.BinaryExpr{X: be.X, Op: token.SUB, Y: be.Y} // translate both sides through the same atom table
+			return deparen(&ast.BinaryExpr{X: be.X, Op: token.SUB, Y: be.Y}) // translate both sides through the same atom table
 		}
 		return norm2(condIf.Cond)
 	}(), atomsFlat(fset2, atoms2))
 	if err != nil || cl != "((currBlockHeight + 1) - headerIndexMaxSize)" {
 		return "", fmt.Errorf("loadHeaderIndexList: the condition is not `<current block height>+1 > HEADER_INDEX_MAX_SIZE`: %s (%v)", flat(fset2, condIf.Cond), err)
 	}
-	l2, err := intExprToLean(fset2, norm2(startExpr), atomsFlat(fset2, atoms2))
+	l2, err := intExprToLean(fset2, deparen(norm2(startExpr)), atomsFlat(fset2, atoms2))
 	if err != nil {
 		return "", fmt.Errorf("loadHeaderIndexList: %v", err)
 	}
@@ -275,4 +281,131 @@ func atomsFlat(fset *token.FileSet, atoms map[string]string) map[string]string {
 
 func atomOf(fset *token.FileSet, e ast.Expr, atoms map[string]string) string {
 	return atoms[flat(fset, stripParens(e))]
+}
+
+// closedFormEviction recognises the eviction of setHeaderIndex written without a counting loop:
+//
+//	if first >= cur { return }                      (or any comparison equivalent to !(first < cur))
+//	if size <= MAX { return }                        with size = cur - first + 1
+//	end := first + (size - MAX)
+//	for h := first; h != end; h++ { delete h }       (h < end accepted)
+//	firstIndex = end
+//
+// It deletes the `size - MAX` lowest heights starting at first and stores first + (size - MAX): exactly what the counting loop
+// `for h := first; size > MAX; size-- { delete h; h++; firstIndex = h }` under the guard `first < cur` computes.  The same Lean
+// definitions (cacheSize, evictGuard, evictWhile) are emitted for both shapes; anything else is reported.
+func closedFormEviction(fset *token.FileSet, fn *ast.FuncDecl, norm func(ast.Expr) ast.Expr, atoms map[string]string, recv string) (string, error) {
+	fail := func(what string) (string, error) {
+		return "", fmt.Errorf("setHeaderIndex: eviction not recognised (neither the counting loop nor the closed form): %s", what)
+	}
+	tr := func(e ast.Expr) string {
+		l, err := intExprToLean(fset, deparen(norm(e)), atoms)
+		if err != nil {
+			return "?" + flat(fset, e)
+		}
+		return l
+	}
+	const size = "((curBlockHeight - firstIndex) + 1)"
+	isRet := func(st ast.Stmt) *ast.IfStmt {
+		is, ok := st.(*ast.IfStmt)
+		if !ok || is.Else != nil || is.Init != nil || len(is.Body.List) != 1 {
+			return nil
+		}
+		if rs, ok := is.Body.List[0].(*ast.ReturnStmt); !ok || len(rs.Results) != 0 {
+			return nil
+		}
+		return is
+	}
+	// normalised comparison: returns (op, left, right) with > and >= turned round
+	cmp := func(e ast.Expr) (token.Token, string, string) {
+		be, ok := stripParens(norm(e)).(*ast.BinaryExpr)
+		if !ok {
+			return token.ILLEGAL, "", ""
+		}
+		x, y := tr(be.X), tr(be.Y)
+		switch be.Op {
+		case token.GTR:
+			return token.LSS, y, x
+		case token.GEQ:
+			return token.LEQ, y, x
+		}
+		return be.Op, x, y
+	}
+	stage := 0
+	var endVar string
+	for _, st := range fn.Body.List {
+		switch stage {
+		case 0: // skip everything up to the first guard-return `cur <= first`
+			if is := isRet(st); is != nil {
+				if op, x, y := cmp(is.Cond); op == token.LEQ && x == "curBlockHeight" && y == "firstIndex" {
+					stage = 1
+				}
+			}
+		case 1, 2, 3, 4:
+			if as, ok := st.(*ast.AssignStmt); ok && as.Tok == token.DEFINE {
+				if len(as.Lhs) == 1 && len(as.Rhs) == 1 && stage == 2 {
+					if tr(as.Rhs[0]) == "(firstIndex + ("+size+" - headerIndexMaxSize))" {
+						endVar = as.Lhs[0].(*ast.Ident).Name
+					}
+				}
+				continue // local definitions are looked through by norm
+			}
+			if is := isRet(st); is != nil && stage == 1 {
+				if op, x, y := cmp(is.Cond); op == token.LEQ && x == size && y == "headerIndexMaxSize" {
+					stage = 2
+					continue
+				}
+				return fail("second guard-return is not `cur-first+1 <= MAX`: " + flat(fset, is.Cond))
+			}
+			if fs, ok := st.(*ast.ForStmt); ok && stage == 2 {
+				init, ok1 := fs.Init.(*ast.AssignStmt)
+				post, ok2 := fs.Post.(*ast.IncDecStmt)
+				cond, ok3 := stripParens(fs.Cond).(*ast.BinaryExpr)
+				if !ok1 || !ok2 || !ok3 || len(init.Lhs) != 1 || len(init.Rhs) != 1 || post.Tok != token.INC || len(fs.Body.List) != 1 {
+					return fail("loop is not `for h := first; h != end; h++ { delete h }`")
+				}
+				h := flat(fset, init.Lhs[0])
+				endOK := flat(fset, cond.Y) == endVar && endVar != "" || tr(cond.Y) == "(firstIndex + ("+size+" - headerIndexMaxSize))"
+				if tr(init.Rhs[0]) != "firstIndex" || flat(fset, post.X) != h || flat(fset, cond.X) != h || (cond.Op != token.NEQ && cond.Op != token.LSS) || !endOK {
+					return fail("loop bounds are not first … first+(size-MAX): " + flat(fset, fs.Cond))
+				}
+				body := flat(fset, fs.Body.List[0])
+				if body != recv+".delHeaderIndex("+h+")" && body != "delete("+recv+".headerIndex,"+h+")" {
+					return fail("loop body does not delete the height it iterates over: " + body)
+				}
+				stage = 3
+				continue
+			}
+			if as, ok := st.(*ast.AssignStmt); ok && as.Tok == token.ASSIGN && stage == 3 && len(as.Lhs) == 1 && len(as.Rhs) == 1 {
+				if flat(fset, as.Lhs[0]) == recv+".firstIndex" && (flat(fset, as.Rhs[0]) == endVar || tr(as.Rhs[0]) == "(firstIndex + ("+size+" - headerIndexMaxSize))") {
+					stage = 4
+					continue
+				}
+			}
+			if es, ok := st.(*ast.ExprStmt); ok && stage == 3 { // this.setFirstIndex(end)
+				if ce, ok := es.X.(*ast.CallExpr); ok && len(ce.Args) == 1 && flat(fset, ce.Fun) == recv+".setFirstIndex" &&
+					(flat(fset, ce.Args[0]) == endVar || tr(ce.Args[0]) == "(firstIndex + ("+size+" - headerIndexMaxSize))") {
+					stage = 4
+					continue
+				}
+			}
+			return fail("unexpected statement in the eviction part: " + flat(fset, st))
+		}
+	}
+	if stage != 4 {
+		return fail(fmt.Sprintf("closed form incomplete (reached stage %d of 4)", stage))
+	}
+	return size, nil
+}
+
+// deparen drops every ParenExpr of an integer expression: the tree keeps the grouping and intExprToLean parenthesises every binary
+// node itself, so `(a - b) + 1`, `((a - b)) + 1` and an inlined `(a-b)+1` translate to the same text
+func deparen(e ast.Expr) ast.Expr {
+	switch x := e.(type) {
+	case *ast.ParenExpr:
+		return deparen(x.X)
+	case *ast.BinaryExpr:
+		return &ast.BinaryExpr{X: deparen(x.X), Op: x.Op, Y: deparen(x.Y)}
+	}
+	return e
 }
